@@ -43,8 +43,9 @@ Letters == {"a","b","c","d","e","f","g","h","i","j","k","l","m","n","o","p","q",
             "A","B","C","D","E","F","G","H","I","J","K","L","M","N","O","P","Q","R","S","T","U","V","W","X","Y","Z"}
 Digits  == {"0","1","2","3","4","5","6","7","8","9"}
 PathSafe == Letters \cup Digits \cup {"_", "$", ".", ":", "-", "/"}
-YamlWords == {"true","false","null","True","False","Null","TRUE","FALSE","NULL",
-              "y","Y","n","N","yes","Yes","YES","no","No","NO","on","On","ON","off","Off","OFF"}
+(* yaml.v3 resolves only these plain words to non-strings (the YAML 1.1    *)
+(* yes/no/on/off/y/n are booleans only for typed targets)                  *)
+YamlWords == {"true","false","null","True","False","Null","TRUE","FALSE","NULL"}
 
 (* the path strings on which yaml.Unmarshal is the identity (a subset) *)
 PlainPath(s) ==
